@@ -140,8 +140,8 @@ BLeave(i) ==
     /\ actor' = i /\ UNCHANGED <<clock, file, kvok, cfg, okSince, bud>>
 
 BasicStep(i) ==
-    \/ \E T \in BRegChoices(i) : BRegisterT(i, T)
-    \/ \E T \in BVerifyChoices(i) : BVerifyT(i, T)
+    \/ (L[i].phase = "init" /\ Basic(i) /\ kvok[i] /\ \E T \in BRegChoices(i) : BRegisterT(i, T))
+    \/ (L[i].phase = "observing" /\ Due(L[i].obsAt) /\ \E T \in BVerifyChoices(i) : BVerifyT(i, T))
     \/ BHeartbeat(i) \/ BDoChangeState(i) \/ BDoReadOnly(i) \/ BLeave(i)
 
 LStep(i) == \/ ClassicStep(i) \/ BasicStep(i)
@@ -150,16 +150,16 @@ LStep(i) == \/ ClassicStep(i) \/ BasicStep(i)
 States == {"PENDING", "JOINING", "ACTIVE", "LEAVING"}
 
 Env == \/ \E i \in Inst : Start(i, cfg[i])
-       \/ \E i \in Inst, s \in States : Request(i, "cs", s)
-       \/ \E i \in Inst, b \in {"true", "false"} : Request(i, "ro", b)
+       \/ (bud.ext > 0 /\ \E i \in Inst, s \in States : Request(i, "cs", s))
+       \/ (bud.ext > 0 /\ \E i \in Inst, b \in {"true", "false"} : Request(i, "ro", b))
        \* documented precondition of ClaimTokensFor: the source is LEAVING (and the claimer is registered)
        \/ \E i, j \in Inst : i # j /\ Classic(i) /\ Present(i) /\ ring[j].st = "LEAVING" /\ Request(i, "claim", ToString(j))
        \/ \E i \in Inst : Return(i) \/ CheckReady(i) \/ StopReq(i) \/ BStopReq(i)
        \/ Tick \/ Wipe
        \/ \E i \in Inst, b \in BOOLEAN : SetKV(i, b)
        \/ \E i \in Inst : Crash(i)
-       \/ \E i \in Inst : \E F \in MidFiles(i) : CrashMid(i, F)
-       \/ \E i \in Inst : \E T \in BRegChoices(i) : BRegisterCrashT(i, T)
+       \/ (bud.crash > 0 /\ \E i \in Inst : \E F \in MidFiles(i) : CrashMid(i, F))
+       \/ (bud.crash > 0 /\ \E i \in Inst : L[i].phase = "init" /\ Basic(i) /\ \E T \in BRegChoices(i) : BRegisterCrashT(i, T))
 
 Next == (\E i \in Inst : LStep(i)) \/ Env
 
